@@ -19,6 +19,18 @@ CLAIMS = {
  "C03": ("Theorems: for any parent (owned or view, hence any nesting depth) with its invariant and start <= end <= (C,R): all six view constructors succeed, the window has size end-start (or (0,0)), satisfies the view invariant again, and its cell (c,r) has the same root-buffer position as the parent's cell (start+c,r); any other start/end panics (never ub). Correspondence: all parents <= 3x3 x all start/end in {0..dim+1}^4 x 3 receiver kinds, depth 3, slice-built roots, writes through mutable views.",
          "unchecked / checked slicing modelled as window arithmetic",
          "Lean 4 proof (window arithmetic, invariant preservation) + differential correspondence"),
+ "C06": ("Theorems over the transcription of the raw-move code (ptr::copy as memmove on the allocation, ptr::write, set_len), for every capacity `reserve` may return and both build modes: with an honest iterator, insert_row/insert_col/push_* are accepted iff index <= dim and (length = other dim or the array is empty); the result is the original with the new line at index i (flat formula and rows-of-cells form `grid.insertIdx` / `zipWith insAt`), dimension grown by one, empty line into empty array stays (0,0), invariant kept, nothing leaked, no ub; any other index/length panics before any mutation (array unchanged). Correspondence: all shapes <= 4x4 x index 0..dim+1 x length 0..dim+1 x {u32, cell, zst} x capacities, plus random build-up histories.",
+         "Vec::reserve (any resulting capacity, or capacity-overflow panic), set_len, ptr::copy/write modelled by specification; zero-sized elements take the same code path in the model (counted loops)",
+         "Lean 4 proof (loop invariants over memmove, refinement to rows-of-cells) + differential correspondence"),
+ "C07": ("Theorems: remove_row's drain (Vec::drain wrapped, std component by specification) holds exactly row i, is an ideal double-ended sequence, and dropping it at any stage leaves data.take(i*C) ++ data.drop((i+1)*C) = grid.eraseIdx i with the invariant; remove_col's cursor stands for column i top to bottom (C09), next/next_back move out exactly the yielded cell, and DrainCol::drop at any stage of consumption compacts the buffer (R-1 left block moves + tail move, all inside the allocation) to grid.map (eraseIdx i), drops exactly the unyielded cells, restores the invariant; last line removed gives (0,0); out-of-range index panics; pop_* on empty returns None. Correspondence: all shapes <= 4x4 x all indices x (front,back) consumption splits and random words x {u32,cell,zst}.",
+         "Vec::drain (incl. its drop) modelled by specification; ptr::read/copy, set_len, from_raw_parts_mut as window arithmetic",
+         "Lean 4 proof (compaction loop invariant, cursor simulation) + differential correspondence"),
+ "C08": ("Simulation theorems for the one transcription shared by Rows and RowsMut: under the cursor invariant WF(it,k,n) the cursor stands for its k remaining row windows; next, next_back, nth(j), nth_back(j) (every j, incl. j*(cols+skip) >= 2^64), len/size_hint/count, last, fold, rfold and any word of them return exactly what the ideal sequence returns, never panic or ub, and re-establish WF; rows()/rows_mut() of an owned array or any view start WF and stand for the num_rows windows <pos(0,r), num_cols>; the windows are pairwise disjoint and inside the buffer. Correspondence: all shapes <= 3x3, views with stride > width, nested views, slice-built views, exhaustive words to depth 3 + random words with huge arguments, positions of every yielded slice compared, write-through checked via rows_mut.",
+         "split_at(_mut), get_unchecked(_mut), mem::take modelled as window arithmetic; Rows and RowsMut share one transcription (their texts differ only in mem::take and in how next_back computes the new length)",
+         "Lean 4 proof (cursor invariant + simulation of the ideal sequence, induction over words) + differential correspondence"),
+ "C09": ("Same simulation for Col/ColMut (items = cell positions) plus indexing: it[i] is the i-th remaining cell for i < len and panics otherwise, also when i*(1+skip) wraps; col(c)/col_mut(c) of an owned array or view are WF and stand for the column's cells top to bottom, c out of range panics; yielded positions are distinct and inside the buffer. Correspondence as C08 with every column index 0..C and index steps.",
+         "split_first/last(_mut), get_unchecked(_mut), checked slice index modelled as window arithmetic; Col and ColMut share one transcription",
+         "Lean 4 proof (cursor invariant + simulation, index arithmetic incl. wrap-around) + differential correspondence"),
 }
 
 ORDER = ["C01", "C02", "C03", "C04", "C05", "C06", "C07", "C08", "C09", "C10", "C11", "C12", "C13", "C14", "C15", "C16", "C17", "C18", "C19", "C20"]
